@@ -74,7 +74,15 @@ XalanOutputStreamPrintWriter::create(
 
 XalanOutputStreamPrintWriter::~XalanOutputStreamPrintWriter()
 {
-    flush();
+    // A destructor must not throw.  Callers that need to know about
+    // a failure call flush() themselves.
+    try
+    {
+        flush();
+    }
+    catch(...)
+    {
+    }
 }
 
 
